@@ -726,6 +726,7 @@ func (b *built) cleanup() {
 // runOut is one executed (traced, possibly killed) run.
 type runOut struct {
 	res      *TraceResult
+	big      *bigOut // untraced big-member run (bigzip.go)
 	destLine string
 	dlLine   string
 	upLine   string
@@ -737,6 +738,9 @@ type runOut struct {
 
 // execute builds the scenario, runs the tracer process on it and removes the sandbox.
 func execute(s scn, base string) *runOut {
+	if s.Writer == "unpack-zip-big" {
+		return executeBig(s)
+	}
 	b, err := build(s, base)
 	if b != nil {
 		defer b.cleanup()
